@@ -497,6 +497,12 @@ func Spin() {
 	s.step(t, OpSpin)
 	t.spinning = true
 	t.Spins++
+	if s.cfg.Policy == PolPCT && s.cfg.Replay == nil {
+		// PCT: a task that declares it is waiting drops below everyone else,
+		// otherwise two high-priority spinners starve the lock holder forever.
+		t.prio = s.lowPrio
+		s.lowPrio--
+	}
 	next := s.decide(t)
 	t.spinning = false
 	if next != nil && next != t {
